@@ -62,11 +62,12 @@ Variable kw_ign : list string.
 Fixpoint first_index {A} (p : A -> bool) (l : list A) (i : nat) : nat :=
   match l with [] => i | x :: r => if p x then i else first_index p r (S i) end.
 
-(* the pruned ast.Inspect of findInlineNode: is there code on the comment's line before the comment *)
+(* the pruned ast.Inspect of findInlineNode: is there code on the comment's line before the comment
+   (a node that begins before the comment and starts or ends on the comment's line) *)
 Fixpoint has_code_on_line (f : file) (cpos cline : Z) (n : node) : bool :=
   let 'Node _ p e _ cs := n in
   if p >=? cpos then false
-  else if line_of f e =? cline then true
+  else if (line_of f p =? cline) || (line_of f e =? cline) then true
   else (fix go (l : list node) : bool := match l with [] => false | c :: r => has_code_on_line f cpos cline c || go r end) cs.
 
 Inductive scope_res := Inline (s e : Z) | NotInline | LinePanic.
